@@ -828,7 +828,7 @@ class DNA(symbolic.Object):
         if not isinstance(self.value, int):
           raise ValueError(
               f'DNA value type mismatch. Value: {self.value}, Spec: {spec!r}.')
-        if self.value >= len(spec.candidates):
+        if self.value < 0 or self.value >= len(spec.candidates):
           raise ValueError(
               f'Value of DNA is out of range according to the DNA spec. '
               f'Value: {self.value}, Spec: {spec!r}.')
